@@ -10,7 +10,14 @@
 
    [rearm] selects the code as it is now (the signal mechanism remembers what setitimer returned and
    re-arms what is left of a timer that was pending: true) or as it was at the pinned commit
-   (ITIMER_REAL is zeroed in the finally: false). *)
+   (ITIMER_REAL is zeroed in the finally: false).
+
+   asyncio: the counterpart of a pool worker is a task / awaited coroutine.  [tasks] of the process state
+   counts the wrapped calls that a decorator started and that are still running although the decorated call
+   is over.  [c_cancel] selects the code as it is (asyncio.wait_for: a decorated call that is cancelled -
+   which is what the enclosing channel limit does to the decorated transport read - cancels the wrapped call
+   and waits for it: true) or a decorator that runs the wrapped call as a task of its own and only stops
+   waiting for it (false): then the transport read stays behind, still waiting for the device. *)
 From Verif Require Import Bytes.
 
 (* ---- mechanism selection: decorators.py, decorate() ---- *)
@@ -45,17 +52,21 @@ Record pstate := mkP {
   interval : N;     (* reload value of ITIMER_REAL *)
   workers : nat;    (* pool worker threads still running *)
   topen : bool;     (* transport open *)
-  lock : bool       (* channel lock held *)
+  lock : bool;      (* channel lock held *)
+  tasks : nat       (* asyncio: wrapped calls started by a decorator that are still running though the
+                       decorated call that started them is over (the counterpart of a pool worker) *)
 }.
 
 Definition set_now (t : N) (s : pstate) : pstate :=
-  mkP t (handler s) (deadline s) (interval s) (workers s) (topen s) (lock s).
+  mkP t (handler s) (deadline s) (interval s) (workers s) (topen s) (lock s) (tasks s).
 Definition set_alarm (h : hnd) (d i : N) (s : pstate) : pstate :=
-  mkP (now s) h d i (workers s) (topen s) (lock s).
+  mkP (now s) h d i (workers s) (topen s) (lock s) (tasks s).
 Definition set_open (b : bool) (s : pstate) : pstate :=
-  mkP (now s) (handler s) (deadline s) (interval s) (workers s) b (lock s).
+  mkP (now s) (handler s) (deadline s) (interval s) (workers s) b (lock s) (tasks s).
 Definition stuck (w : nat) (l : bool) (s : pstate) : pstate :=
-  mkP (now s) (handler s) (deadline s) (interval s) (workers s + w) (topen s) (lock s || l).
+  mkP (now s) (handler s) (deadline s) (interval s) (workers s + w) (topen s) (lock s || l) (tasks s).
+Definition orphaned (n : nat) (s : pstate) : pstate :=
+  mkP (now s) (handler s) (deadline s) (interval s) (workers s) (topen s) (lock s) (tasks s + n).
 
 (* ---- what a wrapped call does on its own ---- *)
 Inductive leaf :=
@@ -235,7 +246,14 @@ Definition thr_op (nt : bool) (To : N) (mo : bytes) (wrapped : bool) (Ti : N) (m
     end.
 
 (* ======================== asyncio mechanism ======================== *)
-Inductive bres := BFin (t : N) (o : outcome) (closed : bool) | BCancelled | BHang.
+(* BCancelled: the operation's own limit fell due and its body was cancelled; [inner] = the cancellation hit
+   the body inside a decorated transport read whose own limit was switched on (the decorator had started the
+   wrapped read and was waiting for it) and the read does not end by the transport being closed *)
+Inductive bres := BFin (t : N) (o : outcome) (closed : bool) | BCancelled (inner : bool) | BHang.
+
+Definition inner_live (wrapped : bool) (Ti : N) (nt : bool) (l : leaf) : bool :=
+  wrapped && negb (Ti =? 0)
+  && match l with StallClosed => nt | _ => true end.   (* closing the transport ends such a read at once *)
 
 (* [poll]: the authentication loops of the asyncio channel read with wait_for(self.read(), poll);
    a transport timeout that is not shorter than the poll interval never fires (0: no polling) *)
@@ -247,14 +265,15 @@ Fixpoint asy_body (nt wrapped : bool) (Ti : N) (mi : bytes) (poll : N) (Do : opt
   match ls with
   | [] => BFin t (Returned last) false
   | l :: r =>
-      if reached Do t then BCancelled else
+      if reached Do t then BCancelled false else
       if negb opn then BFin t (Raised ENotOpened) false else
       let Di := inner_deadline wrapped Ti poll t in
       let timed_out :=
         match Di, Do with
-        | Some di, Some d => if di <? d then BFin di (Raised (ETimeout mi)) (negb nt) else BCancelled
+        | Some di, Some d => if di <? d then BFin di (Raised (ETimeout mi)) (negb nt)
+                             else BCancelled (inner_live wrapped Ti nt l)
         | Some di, None => BFin di (Raised (ETimeout mi)) (negb nt)
-        | None, Some _ => BCancelled
+        | None, Some _ => BCancelled (inner_live wrapped Ti nt l)
         | None, None => BHang
         end in
       match leaf_fin l t None with
@@ -269,13 +288,19 @@ Fixpoint asy_body (nt wrapped : bool) (Ti : N) (mi : bytes) (poll : N) (Do : opt
       end
   end.
 
-Definition asy_op (nt : bool) (To : N) (mo : bytes) (wrapped : bool) (Ti : N) (mi : bytes)
+(* [cancel]: cancelling a decorated call cancels the wrapped call it is waiting for.  true = the code as it
+   is (asyncio.wait_for: the awaited coroutine is cancelled and awaited before the cancellation goes on);
+   false = a decorator that starts the wrapped call as a task of its own and merely stops waiting for it when
+   it is cancelled itself: the wrapped transport read stays behind, still waiting for the device *)
+Definition asy_op (cancel nt : bool) (To : N) (mo : bytes) (wrapped : bool) (Ti : N) (mi : bytes)
            (poll : N) (locked : bool) (ls : list leaf) (s : pstate) : result :=
   let Do := if To =? 0 then None else Some (now s + To) in
   match asy_body nt wrapped Ti mi poll Do ls (now s) 0 (topen s) with
   | BFin t o c => mkR o (set_open (topen s && negb c) (set_now t s))
-  | BCancelled => mkR (Raised (ETimeout mo))
-                      (close_unless nt (set_now (match Do with Some d => d | None => now s end) s))
+  | BCancelled inner =>
+      mkR (Raised (ETimeout mo))
+          (orphaned (if cancel then 0 else if inner then 1 else 0)
+             (close_unless nt (set_now (match Do with Some d => d | None => now s end) s)))
   | BHang => mkR Hang (stuck 0 locked s)
   end.
 
@@ -289,7 +314,8 @@ Record opcfg := mkC {
   c_Ti : N;            (* timeout_transport *)
   c_mi : bytes;        (* message of the inner call *)
   c_poll : N;          (* asyncio authentication loops: poll interval of wait_for(read()), else 0 *)
-  c_locked : bool      (* the operation takes the channel lock *)
+  c_locked : bool;     (* the operation takes the channel lock *)
+  c_cancel : bool      (* asyncio: cancelling a decorated call cancels the wrapped call (see asy_op) *)
 }.
 
 Definition run_op (m : mech) (c : opcfg) (ls : list leaf) (s : pstate) : result :=
@@ -297,14 +323,14 @@ Definition run_op (m : mech) (c : opcfg) (ls : list leaf) (s : pstate) : result 
   | MSignal => sig_op (c_rearm c) (c_nt c) (c_To c) (c_mo c) (c_wrapped c) (c_Ti c) (c_mi c)
                       (c_locked c) ls s
   | MThread => thr_op (c_nt c) (c_To c) (c_mo c) (c_wrapped c) (c_Ti c) (c_mi c) (c_locked c) ls s
-  | MAsync => asy_op (c_nt c) (c_To c) (c_mo c) (c_wrapped c) (c_Ti c) (c_mi c) (c_poll c)
+  | MAsync => asy_op (c_cancel c) (c_nt c) (c_To c) (c_mo c) (c_wrapped c) (c_Ti c) (c_mi c) (c_poll c)
                      (c_locked c) ls s
   end.
 
 (* one decorated call whose body is the leaf itself (a transport read, or any decorated function) *)
 Definition run_wrapped (m : mech) (rearm nt : bool) (T : N) (msg : bytes) (l : leaf) (s : pstate)
   : result :=
-  run_op m (mkC rearm nt T msg false 0 [] 0 false) [l] s.
+  run_op m (mkC rearm nt T msg false 0 [] 0 false true) [l] s.
 
 (* the mechanism of the inner call, given that of the outer one: a thread-mechanism operation runs its
    body (hence the transport read) in a pool worker, which is not the main thread *)
@@ -339,7 +365,8 @@ Definition timer_back (m : mech) (s s' : pstate) : Prop :=
 
 (* process-wide state put back *)
 Definition restored (m : mech) (s s' : pstate) : Prop :=
-  handler s' = handler s /\ timer_back m s s' /\ workers s' = workers s /\ lock s' = lock s.
+  handler s' = handler s /\ timer_back m s s' /\ workers s' = workers s /\ lock s' = lock s /\
+  tasks s' = tasks s.
 
 (* helpers for the obligations over the generated tables (props/C07.v) *)
 Definition fst3 {A B C} (x : A * B * C) : A := fst (fst x).
